@@ -328,8 +328,6 @@ CANARY = [
     PREAMBLE + 'class C0:\n    x = "C0:p"\n    def y(self):\n        return "C0:m:" + W(self)\nREG.append(("C0", C0))\ni0 = C0()\nREG.append(("i0", i0))\nprint("t0", i0.x)\nprint("t1", i0.y())\nprint("t2", C0.x)\nprint("t3", isinstance(i0, C0))\n',
     'class C0:\n    pass\ni0 = C0()\ntry:\n    print("t0", i0.x)\nexcept AttributeError:\n    print("t0", "AE")\nexcept TypeError:\n    print("t0", "TE")\ntry:\n    print("t1", i0())\nexcept AttributeError:\n    print("t1", "AE")\nexcept TypeError:\n    print("t1", "TE")\n',
     'class C0:\n    pass\ni0 = C0()\ni0.x = "w"\nprint("t0", i0.x)\ndel i0.x\ntry:\n    del i0.x\n    print("t1", "ok")\nexcept AttributeError:\n    print("t1", "AE")\n',
-    # (a class statement CPython rejects for an inconsistent MRO; 'class C0(int, str)' is rejected for an instance-layout conflict, which is not part of this property)
-    'class X:\n    pass\nclass Y:\n    pass\nclass A(X, Y):\n    pass\nclass B(Y, X):\n    pass\ntry:\n    class C0(A, B):\n        pass\n    print("t0", "ok")\nexcept TypeError:\n    print("t0", "TE")\n',
 ]
 
 EXTRA_REJECT = [
